@@ -128,7 +128,7 @@ func genC01(t *rapid.T) c01Case {
 	if mode == "wide" {
 		return genC01Wide(t)
 	}
-	g := &fgen{t: t, maxAtoms: 4, maxDepth: 4, maxWidth: 3, quant: mode == "quantified", edges: 2, budget: 9}
+	g := &fgen{t: t, maxAtoms: 4, maxDepth: 4, maxWidth: 3, quant: mode == "quantified", edges: 2, budget: 9, companions: true}
 	if thorough {
 		g.maxDepth, g.maxWidth, g.maxAtoms, g.budget = 6, 4, 5, 14
 	}
@@ -145,11 +145,15 @@ func genC01(t *rapid.T) c01Case {
 		}
 		f := g.formula(0)
 		name := fmt.Sprintf("v%d", i)
-		c.Profile.Validations = append(c.Profile.Validations, m.Validation{Name: name, Level: pick(t, levels, "level"), Class: "ex.Test", Body: f})
+		class := "ex.Test"
+		if mode == "quantified" {
+			class = pick(t, []string{"ex.Test", "ex.Test", "ex.Other", "ex.Nothing"}, "class")
+		}
+		c.Profile.Validations = append(c.Profile.Validations, m.Validation{Name: name, Level: pick(t, levels, "level"), Class: class, Body: f})
 		if rapid.IntRange(0, 2).Draw(t, "withTwin") != 0 {
 			budget := rapid.IntRange(1, 4).Draw(t, "rwBudget")
 			f2 := rewrite(t, f, &budget)
-			c.Profile.Validations = append(c.Profile.Validations, m.Validation{Name: name + "rw", Level: pick(t, levels, "level"), Class: "ex.Test", Body: f2})
+			c.Profile.Validations = append(c.Profile.Validations, m.Validation{Name: name + "rw", Level: pick(t, levels, "level"), Class: class, Body: f2})
 			c.Pairs = append(c.Pairs, [2]string{name, name + "rw"})
 		}
 	}
@@ -287,7 +291,7 @@ func decideC01(c c01Case) ev.Verdict {
 	anyMixed := false
 	connectives := 0
 	for _, val := range c.Profile.Validations {
-		want, ok := expectedFailing(val.Body, c.Graph, classTest)
+		want, ok := expectedFailing(val.Body, c.Graph, m.NS+strings.TrimPrefix(val.Class, "ex."))
 		if !ok {
 			return ev.Verdict{Discard: true, Detail: "values outside the witness table"}
 		}
@@ -296,10 +300,11 @@ func decideC01(c c01Case) ev.Verdict {
 		connectives += st.Connectives + st.Quantifiers
 		targets := 0
 		for _, n := range c.Graph.Nodes {
-			if n.HasType(classTest) {
+			if n.HasType(m.NS + strings.TrimPrefix(val.Class, "ex.")) {
 				targets++
 			}
 		}
+		v.Labels = append(v.Labels, "target:"+val.Class)
 		if len(want) > 0 && len(want) < targets {
 			anyMixed = true
 		}
